@@ -396,11 +396,11 @@ class RawPeer:
         self.world, self.name = world, name
         self.conns = []
 
-    def connect(self, port, host="127.0.0.1", source_port=None):
+    def connect(self, port, host="127.0.0.1", source_port=None, source_host=None):
         loop = self.world.loop
         proto = RawProtocol()
         with Running(loop):
-            ct = loop._connect_pair(host, port, proto, self.name, source_port=source_port)
+            ct = loop._connect_pair(host, port, proto, self.name, source_port=source_port, source_host=source_host)
             proto.connection_made(ct)
         c = RawConn(self.world, ct, proto)
         self.conns.append(c)
